@@ -221,24 +221,29 @@ static void exec(Obj& o, std::istringstream& in, const std::string& cmd)
     if (o.is_adj) { printf("NA\n"); return; }
     printf("OK %.17g\n", o.base->cond());
   } else if (cmd == "QXXALL" || cmd == "Q0ALL") {
-    printf("OK %d", n * n);
+    // computed before anything is printed: an exception must give a clean EXC reply
+    std::vector<double> q;
     for (int i = 1; i <= n; i++)
-      for (int j = 1; j <= n; j++) {
-        double v = (cmd == "QXXALL") ? (o.is_adj ? o.adj->q_xx(i, j) : o.base->q_xx(i, j))
-                                     : o.base->q0_xx(i, j);
-        printf(" %.17g", v);
-      }
+      for (int j = 1; j <= n; j++)
+        q.push_back((cmd == "QXXALL") ? (o.is_adj ? o.adj->q_xx(i, j) : o.base->q_xx(i, j))
+                                      : o.base->q0_xx(i, j));
+    printf("OK %d", n * n);
+    for (double v : q) printf(" %.17g", v);
     printf("\n");
   } else if (cmd == "QBBALL") {
-    printf("OK %d", m * m);
+    std::vector<double> q;
     for (int i = 1; i <= m; i++)
       for (int j = 1; j <= m; j++)
-        printf(" %.17g", o.is_adj ? o.adj->q_bb(i, j) : o.base->q_bb(i, j));
+        q.push_back(o.is_adj ? o.adj->q_bb(i, j) : o.base->q_bb(i, j));
+    printf("OK %d", m * m);
+    for (double v : q) printf(" %.17g", v);
     printf("\n");
   } else if (cmd == "QBXALL") {
-    printf("OK %d", m * n);
+    std::vector<double> q;
     for (int i = 1; i <= m; i++)
-      for (int j = 1; j <= n; j++) printf(" %.17g", o.base->q_bx(i, j));
+      for (int j = 1; j <= n; j++) q.push_back(o.base->q_bx(i, j));
+    printf("OK %d", m * n);
+    for (double v : q) printf(" %.17g", v);
     printf("\n");
   } else if (cmd == "LINDEPALL") {
     if (o.is_adj) { printf("NA\n"); return; }
